@@ -1,8 +1,14 @@
 """C09 — a CPHD written by sarpy reads back identically and its header describes the file.
 
-proof side : lean/SarpyModel/Props/C09.lean (alignment, block order, header fits, packed element ranges)
-tie        : correspondence of the header sarpy computes (and writes) with the Lean layout model on generated metadata
-search     : independent byte-level parser of the written file + reopen through open_phase_history and compare everything
+proof side : lean/SarpyModel/Props/C09.lean (alignment, block order, header fits, packed element ranges), Props/C09H.lean (explicit header
+             text, its length, termination of the retry under an explicit bound), Props/C09W.lean (writer state machine: histories),
+             Bridge/Cphd.lean (the regenerated make_file_header kernels and header tables equal the reference definitions)
+tie        : translator (translate/gen_cphd.py regenerates Gen/CphdKernels.lean from CPHD.py / CRSD.py on every run; bridge theorems in REQUIRED;
+             three-way differential Python fragment / Gen / Spec on random integers); correspondence of the header sarpy computes (and writes)
+             with the Lean layout model and the Lean-rendered header text on generated metadata; op-history correspondence of the writer
+             machine (harness/cphdwriter.py: refusals, file-object write log, element flags, close report, file image)
+search     : independent byte-level parser of the written file + reopen through open_phase_history and compare everything; direct oracle of
+             the writer clauses on every history
 """
 import io
 import json
@@ -13,12 +19,21 @@ import tempfile
 
 import numpy
 
-from common import Check, Driver, Infra, sarpy_guard
+from common import Check, Driver, Infra, sarpy_guard, VERIF
 import cphdgen
+import cphdwriter
+import cphdkernels
 from c02 import meta_diff
 
-REQUIRED = ['align_ge', 'align_lt', 'align_mod', 'layout_ordered', 'layout_aligned', 'choose_fits', 'choose_first', 'packed_ranges_tile']
+REQUIRED = ['align_ge', 'align_lt', 'align_mod', 'layout_ordered', 'layout_aligned', 'choose_fits', 'choose_first', 'packed_ranges_tile',
+            # Bridge/Cphd.lean: regenerated CPHD.py kernels / tables = reference definitions
+            'gen_align', 'gen_retry_align', 'gen_chain', 'gen_retry', 'gen_header_tables',
+            # Props/C09H.lean: explicit header text, retry termination
+            'decimal_length', 'valueOf_decimal', 'decimal_digits', 'line_length', 'line_eq_format', 'headerBytes_length', 'chooseText_eq',
+            'choose_succ', 'header_text_fits', 'choose_mono', 'choose_mono_le', 'choose_terminates_aux', 'digits_le_of_lt_pow', 'hdrLen_ge',
+            'fileEnd_lt', 'hdrLen_le', 'chooseText_terminates', 'retry_terminates_7'] + cphdwriter.REQUIRED_W
 KIND = 'CPHD'
+K_AMPSF = 'refused-pvp-rewrite-replaces-ampsf'
 
 
 def write_case(rng, meta, pvp, raw, support, target, tmpdir, plan):
@@ -77,8 +92,12 @@ def run(tier):
     from sarpy.io.phase_history.cphd import CPHDWritingDetails
     chk = Check('C09', tier)
     rng = chk.rng
-    broken = chk.prove(['SarpyModel.Props.C09', 'SarpyModel.Drivers'], 'SarpyModel.Props.C09', 'Sarpy.Props.C09', REQUIRED)
+    gen_info = cphdkernels.regenerate()
+    broken = chk.prove(['SarpyModel.Props.C09All', 'SarpyModel.Drivers'], 'SarpyModel.Props.C09All', 'Sarpy.Props.C09', REQUIRED, gen_info)
+    if gen_info['unsupported']:
+        broken.append('translator could not express: ' + json.dumps(gen_info['unsupported']))
     fails, stats, seen, jobs, disagreements = [], {}, set(), [], []
+    tw_jobs, w_jobs, w_stats, w_seen = [], [], {}, set()
     drv = Driver()
     tmpdir = tempfile.mkdtemp(prefix='c09_', dir=os.environ.get('VERIF_SCRATCH', '/var/tmp'))
     logging.disable(logging.CRITICAL)
@@ -122,7 +141,10 @@ def run(tier):
                     if name + '_BLOCK_BYTE_OFFSET' in kv and g(name + '_BLOCK_BYTE_OFFSET') % 64 != 0:
                         fails.append({'kind': 'layout', 'msg': f'{name} block offset {g(name + "_BLOCK_BYTE_OFFSET")} is not 64-byte aligned', 'case': case})
                 ss = str(g('SUPPORT_BLOCK_SIZE')) if 'SUPPORT_BLOCK_SIZE' in kv else 'N'
-                jobs.append((case, kv, drv.ask(f'cphd layout {g("XML_BLOCK_BYTE_OFFSET")} {g("XML_BLOCK_SIZE")} {ss} {g("PVP_BLOCK_SIZE")} {g("SIGNAL_BLOCK_SIZE")}')))
+                hend = cphdgen.parse_header(buf)[3]
+                jobs.append((case, kv, drv.ask(f'cphd layout {g("XML_BLOCK_BYTE_OFFSET")} {g("XML_BLOCK_SIZE")} {ss} {g("PVP_BLOCK_SIZE")} {g("SIGNAL_BLOCK_SIZE")}'),
+                             drv.ask(f'cphd gen cphd {g("XML_BLOCK_BYTE_OFFSET")} {g("XML_BLOCK_SIZE")} {meta.Data.NumSupportArrays} {0 if ss == "N" else ss} '
+                                     f'{g("PVP_BLOCK_SIZE")} {g("SIGNAL_BLOCK_SIZE")} {hend}')))
             # reopen
             path = os.path.join(tmpdir, 'rd.cphd')
             open(path, 'wb').write(buf)
@@ -172,12 +194,21 @@ def run(tier):
                 fails.append({'kind': 'read', 'msg': f'reading back raised {type(e).__name__}: {e}', 'case': case})
             finally:
                 rdr.close()
+        # translator tie: Python fragment / regenerated Lean / reference on random integers
+        tw_jobs, tw_problems = cphdkernels.three_way(KIND, rng, drv, 150 if tier == 'quick' else 3000)
+        broken += tw_problems
+        # writer state machine: op histories on the real CPHDWriter1 vs the Lean machine, plus the direct oracle of the writer clauses
+        w_jobs, w_fails, w_stats, w_seen = cphdwriter.run_batch(KIND, rng, 60 if tier == 'quick' else 1500, tmpdir, drv)
+        fails += w_fails
+        fails += cphdwriter.finding_probes(KIND, tmpdir)
     finally:
         shutil.rmtree(tmpdir, ignore_errors=True)
         logging.disable(logging.NOTSET)
     try:
         ans = drv.run()
-        for case, kv, i in jobs:
+        disagreements += cphdkernels.settle_three_way(KIND, tw_jobs, ans)
+        disagreements += cphdwriter.settle(w_jobs, ans)
+        for case, kv, i, ig in jobs:
             stats['model_cases'] = stats.get('model_cases', 0) + 1
             t = ans[i].split()
             g = lambda k: kv.get(k)
@@ -185,16 +216,32 @@ def run(tier):
                     g('PVP_BLOCK_BYTE_OFFSET'), g('PVP_BLOCK_SIZE'), g('SIGNAL_BLOCK_BYTE_OFFSET'), g('SIGNAL_BLOCK_SIZE')]
             if t[:8] != impl:
                 disagreements.append({'case': case, 'model': t, 'impl': impl})
+            gt = ans[ig].split()      # regenerated kernels: sizes/offsets in the order of the header fields, then the retry decision
+            gimpl = [impl[1], impl[0], impl[3], impl[2], impl[5], impl[4], impl[7], impl[6], 'N']
+            if gt != gimpl:
+                disagreements.append({'what': 'regenerated make_file_header kernels (cphd gen) vs the header of the written file', 'case': case, 'model': gt, 'impl': gimpl})
     except Infra as e:
         broken.append('model driver does not build/run: ' + str(e)[:300])
     chk.coverage.update({
-        'evaluations': stats.get('files', 0) + stats.get('model_cases', 0), 'distinct_nontrivial': len(seen),
+        'evaluations': stats.get('files', 0) + stats.get('model_cases', 0) + len(tw_jobs) + w_stats.get('histories', 0),
+        'distinct_nontrivial': len(seen) + len(w_seen), 'writer_histories': w_stats, 'kernel_three_way_cases': len(tw_jobs),
         'rule': 'self-consistent CPHD 1.0.1/1.1.0 metadata: 1-4 channels of differing sizes x CI2/CI4/CF8 x AmpSF present/absent x 0-3 support arrays x '
                 'ASCII / non-ASCII / long metadata text x write_file vs piecewise writes (PVP/support/signal in random order, signal in shuffled row chunks, '
-                'formatted or raw) x path / BytesIO / caller file; distinct = the tuple of those classes',
-        'samples': [j[0] for j in jobs[:2]], 'stats': stats, 'traces_validated_against_impl': stats.get('model_cases', 0),
+                'formatted or raw) x path / BytesIO / caller file; distinct = the tuple of those classes. Writer histories: 1-3 channels x 0-2 support arrays x '
+                'AmpSF x short / >700 byte release string x BytesIO / caller file (both behind a logging proxy) / path x complete (shuffled, chunked, with flushes, '
+                'repeated, malformed and out-of-range calls) / random / premature-close op lists; distinct = (target, protocol, AmpSF, counts, complete, rewrote, '
+                'refusals seen, flushes, early close, header retry). Kernel three-way: random integers up to 2^44 incl. alignment boundaries',
+        'samples': [j[0] for j in jobs[:2]] + [j['case'] for j in w_jobs[:1]], 'stats': stats,
+        'traces_validated_against_impl': stats.get('model_cases', 0) + w_stats.get('histories', 0) + len(tw_jobs),
         'disagreements_checked': len(disagreements)})
-    chk.assumptions += ['the header text length function and the retry of make_file_header are modelled abstractly (choose): the common first-guess case is compared numerically',
+    chk.assumptions += ['make_file_header: the integer arithmetic of one attempt and the retry decision are regenerated from the source and bridged by theorem; the recursion '
+                        'itself (same object, new offset) is the hand-written `choose`, validated by the header text / XML offset comparison on every written file',
+                        'the three float idioms of _align (ceil of a float quotient times 64) are read as exact integer arithmetic (operands below 2^53)',
+                        'termination of the retry is proved for files below 10^18 bytes (retry_terminates_7); above that only with fuel',
+                        'writer machine: hand model of cphd.py (no translator), tied by op-history correspondence; loop -> comprehension in flush, zero-fill '
+                        'semantics of seek-past-end and of numpy.memmap creation, memory maps and the file object being one file are modelling steps',
+                        'writer histories use full-row signal chunks; a repeated PVP write carries the same AmpSF (the machine does not model scaling values); dtype '
+                        'mismatches, subscript-style writes and signal compression are not generated',
                         'signal compression is not generated; XML payload equality is C05/C06 (here: to_dict equality)',
                         'PVP layouts come from the syntax-only example documents with offsets re-packed']
     unknown = [f for f in fails if not (f.get('key') and chk.known(f['key']))]
@@ -210,5 +257,22 @@ def run(tier):
 
 
 def replay(path):
-    print(json.dumps(json.load(open(path))['case'])[:2000])
+    rec = json.load(open(path))
+    case = rec.get('case', {})
+    case = case.get('case', case)
+    print(json.dumps(case)[:2000])
+    if isinstance(case, dict) and 'ops' in case and 'seed' in case:      # a writer history: re-run it on the implementation alone
+        sarpy_guard()
+        tmpdir = tempfile.mkdtemp(prefix='c09_', dir=os.environ.get('VERIF_SCRATCH', '/var/tmp'))
+        logging.disable(logging.CRITICAL)
+        try:
+            fails = cphdwriter.replay_case(case, tmpdir)
+        finally:
+            shutil.rmtree(tmpdir, ignore_errors=True)
+            logging.disable(logging.NOTSET)
+        for f in fails:
+            print('FAIL:', f['msg'])
+        if not fails:
+            print('no failure on the current source')
+        return 1 if fails else 0
     return 1
